@@ -27,7 +27,7 @@ def run(ck):
     np.seterr(all="ignore")
     rng = ck.rng
     thorough = ck.tier == "thorough"
-    N = 240 if thorough else 45
+    N = ck.n(45, 240)
     worst = {}
     lines, plan = [], []
 
